@@ -5,10 +5,12 @@ package main
 // here; see coq/Run/R17.v for the case formats.
 
 import (
+	"bytes"
 	"context"
 	"crypto/md5"
 	"encoding/hex"
 	"fmt"
+	"io"
 	"runtime"
 	"sort"
 	"strconv"
@@ -173,6 +175,11 @@ func (b *c17Backend) GetCapabilities(ctx context.Context, instanceName digest.In
 	return nil, status.Error(codes.Unimplemented, "n/a")
 }
 
+// c17StreamMode: the backends hand out stream-backed CAS buffers (as a remote or a block-device
+// backed store does) instead of byte slices, so that a read-through with a copying replicator runs
+// its copy as a background task of the returned buffer; set per operation by the sequential cases.
+var c17StreamMode bool
+
 func (b *c17Backend) Get(ctx context.Context, d digest.Digest) buffer.Buffer {
 	id := c17ID(d)
 	if f := b.gate(ctx, b.id, 0, []int{id}); f != 0 {
@@ -185,6 +192,9 @@ func (b *c17Backend) Get(ctx context.Context, d digest.Digest) buffer.Buffer {
 		return buffer.NewBufferFromError(err)
 	}
 	b.done(ctx, 0, []int{id}, nil, nil)
+	if c17StreamMode {
+		return buffer.NewCASBufferFromReader(d, io.NopCloser(bytes.NewReader(c17Contents[id])), buffer.BackendProvided(func(bool) {}))
+	}
 	return buffer.NewValidatedBufferFromByteSlice(c17Contents[id])
 }
 
@@ -263,6 +273,11 @@ func (b *c17Backend) put(ctx context.Context, d digest.Digest, buf buffer.Buffer
 	}
 	if string(data) != string(c17Contents[id]) {
 		return status.Error(codes.InvalidArgument, "wrong bytes")
+	}
+	if c17StreamMode {
+		// the copy of a read-through commits a little after the last byte was handed out: a
+		// consumer that is told "end of stream" before the copy finished is then caught out
+		time.Sleep(300 * time.Microsecond)
 	}
 	b.lock.Lock()
 	b.have[id] = true
@@ -362,9 +377,12 @@ func (c17) execSeq(in Sx) (Sx, bool) {
 	ctx := context.Background()
 	out := []Sx{}
 	for _, st := range in.Nth(5).List {
-		if st.Len() != 3 || !c17Atom(st.Nth(0), 0, 3) || st.Nth(2).IsAtom {
+		// kinds 4 and 5 are Gets (the model decodes every kind but 1, 2, 3 as a Get) against
+		// backends that hand out stream-backed buffers: 4 consumed chunk by chunk, 5 as a whole
+		if st.Len() != 3 || !c17Atom(st.Nth(0), 0, 5) || st.Nth(2).IsAtom {
 			return Sx{}, false
 		}
+		c17StreamMode = st.Nth(0).Z >= 4
 		for _, f := range st.Nth(2).List {
 			if !c17Atom(f, 0, 16) {
 				return Sx{}, false
@@ -376,12 +394,33 @@ func (c17) execSeq(in Sx) (Sx, bool) {
 		pfx := 0
 		ans := []int{}
 		switch st.Nth(0).Z {
-		case 0, 1, 3:
+		case 0, 1, 3, 4, 5:
 			if !c17Atom(st.Nth(1), 0, c17NObj-1) {
 				return Sx{}, false
 			}
 			id := st.Nth(1).Int()
-			if st.Nth(0).Z == 0 {
+			if st.Nth(0).Z == 4 {
+				cr := ba.Get(ctx, c17Digests[id]).ToChunkReader(0, 5)
+				var data []byte
+				var err error
+				for {
+					var chunk []byte
+					chunk, err = cr.Read()
+					if err != nil {
+						break
+					}
+					data = append(data, chunk...)
+				}
+				cr.Close()
+				if err == io.EOF {
+					err = nil
+				}
+				code = c17Code(err)
+				pfx = c17Prefix(err)
+				if err == nil && string(data) != string(c17Contents[id]) {
+					code = -3
+				}
+			} else if st.Nth(0).Z == 0 || st.Nth(0).Z == 5 {
 				data, err := ba.Get(ctx, c17Digests[id]).ToByteSlice(1 << 20)
 				code = c17Code(err)
 				pfx = c17Prefix(err)
@@ -409,6 +448,7 @@ func (c17) execSeq(in Sx) (Sx, bool) {
 		}
 		out = append(out, L(AI(code), LInts(ans), L(env.calls...), LInts(a.contents()), LInts(b.contents()), AI(pfx)))
 	}
+	c17StreamMode = false
 	return L(out...), true
 }
 
@@ -679,7 +719,9 @@ func c17GenSeq(r *Rand, tier string) Sx {
 		}
 		switch x := r.Intn(100); {
 		case x < 30:
-			ops = append(ops, L(A(0), AI(r.Intn(nobj)), LInts(faults)))
+			// a Get: from byte-slice buffers (0), or from stream-backed buffers consumed chunk by
+			// chunk (4) or as a whole (5) - the copy of a read-through is then a background task
+			ops = append(ops, L(AI(r.Pick([]int{0, 0, 4, 4, 5})), AI(r.Intn(nobj)), LInts(faults)))
 		case x < 58:
 			// composite read (GetFromComposite) of the child of a parent
 			ops = append(ops, L(A(3), AI(r.Intn(nobj)), LInts(faults)))
